@@ -27,6 +27,16 @@ def t5(sim):
     return round(sim.loop._vt / TICK * 5)
 
 
+def new_sim():
+    """vloop.Sim with a clock resolution well below the 1/5-tick grid of this check.  asyncio runs a
+    timer as soon as `when < now + clock_resolution`; vloop's default (1/4 tick) lets the default
+    batch_timeout (51.2 ticks) fire when the clock stands at 51.0 — 0.2 tick early, which the real
+    clock (resolution ~1e-9 s) never does.  1/64 tick is still far above float rounding of 0.05 s."""
+    sim = vloop.Sim()
+    sim.loop._clock_resolution = TICK / 64
+    return sim
+
+
 # ---------------------------------------------------------------------------
 # buffer_until_timeout
 # ---------------------------------------------------------------------------
@@ -35,7 +45,7 @@ def run_buffer(timeout, script, form):
     """script: ['sub', a] | ['adv', ticks].  Returns list of [t5, sorted args]."""
     logging.disable(logging.CRITICAL)
     from aiuti.asyncio import buffer_until_timeout, BufferAsyncCalls
-    sim = vloop.Sim()
+    sim = new_sim()
     flushes = []
     kw = {} if timeout is None else {'timeout': timeout * TICK}
     box = {}
@@ -71,7 +81,7 @@ def run_buffer2(timeout, script, form):
     Returns [flushes of function 0, flushes of function 1]."""
     logging.disable(logging.CRITICAL)
     from aiuti.asyncio import buffer_until_timeout
-    sim = vloop.Sim()
+    sim = new_sim()
     flushes = [[], []]
     kw = {} if timeout is None else {'timeout': timeout * TICK}
     box = {}
@@ -122,7 +132,7 @@ class LoopRec:
     """Everything observed on one loop."""
 
     def __init__(self):
-        self.sim = vloop.Sim()
+        self.sim = new_sim()
         self.starts = []        # [t5, [keys]] in start order; index = batch index on this loop
         self.gates = {}         # batch index -> future
         self.dones = {}         # caller -> [t5, result]
@@ -266,7 +276,7 @@ def run_batcher2(cfg, script, form):
     logging.disable(logging.CRITICAL)
     from aiuti.asyncio import async_background_batcher
     kw = batcher_kwargs(cfg)
-    sim = vloop.Sim()
+    sim = new_sim()
     recs = [dict(starts=[], gates={}, dones={}, n=0) for _ in range(2)]
     tasks = []
 
